@@ -1,3 +1,5 @@
 import ZkVerif.Audit
 import ZkVerif.Props.C05
+import ZkVerif.Props.Sha3Inst
 #audit_ns ZkVerif.C05
+#audit_ns ZkVerif.Sha3
